@@ -198,5 +198,8 @@ def oracle(d, args, M):
     L, asym = chain_L(torus_chain(d, *args, M=M, solute=True))
     Lb, asymb = chain_L(torus_chain(d, *args, M=M, solute=False))
     nsites = d.N * M ** d.crys.dim
-    return dict(Lss=L[("s", "s")], Lsv=L[("s", "v")], Lvv=L[("v", "v")], Lvv0=Lb[("v", "v")],
+    # index convention of the implementation: Lsv[a, b] = <vacancy_a solute_b> (outer[a,b,i,j] contracted with biasV_i etaS_j),
+    # i.e. the transpose of the chain's <solute_a vacancy_b>; the two coincide unless the point group leaves an antisymmetric
+    # tensor invariant (oblique / monoclinic / triclinic ...; see C03 known finding c03-Lsv-asym-axialgroup)
+    return dict(Lss=L[("s", "s")], Lsv=L[("s", "v")].T, Lvv=L[("v", "v")], Lvv0=Lb[("v", "v")],
                 L0vv=Lb[("v", "v")] / nsites, asym=max(asym, asymb))
